@@ -1,24 +1,1094 @@
-//! playground (temporary)
-use aranya_policy_vm::Value;
-use vh::policykit as pk;
+//! C29 — fact queries in policies match a fact-store model.
+//!
+//! Per case: a generated fact schema over int/bool/string/id/enum keys and values, a generated
+//! policy SOURCE TEXT (one command/action per query shape) compiled by the real compiler, run by a
+//! real `VmPolicy` inside a real `ClientState` over the real linear storage.  Every request line is
+//! answered by the real code (through effects emitted by the generated commands), by a
+//! `BTreeMap` fact-store oracle over *typed* keys (S level: the property itself) and — by `./check`
+//! — by the Lean model over *serialized* keys (M level).
+//!
+//! A second stream compares the key codec itself (`ser_key`/`deser_key`, via the cfg-gated shim
+//! `vm_policy::verif_api_c29`) with the model, including malformed byte strings.
+
+use std::collections::{BTreeMap, BTreeSet};
+
+use aranya_id::BaseId;
+use aranya_policy_vm::{FactKey, HashableValue, Identifier, Text, Value};
+use aranya_runtime::vm_policy::verif_api_c29 as codec;
+use vh::{
+    fnv, hex,
+    policykit as pk,
+    unhex, Args, Recorder, Rng,
+};
+
+// ------------------------------------------------------------------ typed values
+
+#[derive(Clone, Copy, Debug, PartialEq, Eq)]
+enum Ty {
+    Int,
+    Bool,
+    Str,
+    Id,
+    Enum,
+}
+
+/// A key/value field value.  The derived `Ord` *is* the S-level typed order (all values in one
+/// key position have the same variant): ints numerically, `false < true`, strings and ids
+/// bytewise, enums by (value, name).
+#[derive(Clone, Debug, PartialEq, Eq, PartialOrd, Ord)]
+enum V {
+    Int(i64),
+    Bool(bool),
+    Str(Vec<u8>),
+    Id(Vec<u8>),
+    Enum(i64, String),
+}
+
+const ENUM_NAME: &str = "Col";
+const ENUM_VARIANTS: [&str; 3] = ["Red", "Green", "Blue"];
+
+impl Ty {
+    fn code(self) -> char {
+        match self {
+            Ty::Int => 'i',
+            Ty::Bool => 'b',
+            Ty::Str => 's',
+            Ty::Id => 'd',
+            Ty::Enum => 'e',
+        }
+    }
+    fn from_code(c: char) -> Option<Ty> {
+        Some(match c {
+            'i' => Ty::Int,
+            'b' => Ty::Bool,
+            's' => Ty::Str,
+            'd' => Ty::Id,
+            'e' => Ty::Enum,
+            _ => return None,
+        })
+    }
+    fn src(self) -> String {
+        match self {
+            Ty::Int => "int".into(),
+            Ty::Bool => "bool".into(),
+            Ty::Str => "string".into(),
+            Ty::Id => "id".into(),
+            Ty::Enum => format!("enum {ENUM_NAME}"),
+        }
+    }
+}
+
+impl V {
+    fn ty(&self) -> Ty {
+        match self {
+            V::Int(_) => Ty::Int,
+            V::Bool(_) => Ty::Bool,
+            V::Str(_) => Ty::Str,
+            V::Id(_) => Ty::Id,
+            V::Enum(..) => Ty::Enum,
+        }
+    }
+    fn tok(&self) -> String {
+        match self {
+            V::Int(i) => format!("i{i}"),
+            V::Bool(b) => format!("b{}", *b as u8),
+            V::Str(s) => format!("s{}", hex(s)),
+            V::Id(d) => format!("d{}", hex(d)),
+            V::Enum(v, n) => format!("e{}.{v}", hex(n.as_bytes())),
+        }
+    }
+    fn parse(t: &str) -> Option<V> {
+        let (c, rest) = (t.chars().next()?, &t[1..]);
+        Some(match c {
+            'i' => V::Int(rest.parse().ok()?),
+            'b' => V::Bool(match rest {
+                "0" => false,
+                "1" => true,
+                _ => return None,
+            }),
+            's' => V::Str(unhex(rest)?),
+            'd' => V::Id(unhex(rest)?),
+            'e' => {
+                let (n, v) = rest.split_once('.')?;
+                V::Enum(v.parse().ok()?, String::from_utf8(unhex(n)?).ok()?)
+            }
+            _ => return None,
+        })
+    }
+    fn to_value(&self) -> Option<Value> {
+        Some(match self {
+            V::Int(i) => Value::Int(*i),
+            V::Bool(b) => Value::Bool(*b),
+            V::Str(s) => Value::String(std::str::from_utf8(s).ok()?.parse::<Text>().ok()?),
+            V::Id(d) => Value::Id(BaseId::from_bytes(d.as_slice().try_into().ok()?)),
+            V::Enum(v, n) => Value::Enum(n.parse::<Identifier>().ok()?, *v),
+        })
+    }
+    fn to_hashable(&self) -> Option<HashableValue> {
+        Some(match self {
+            V::Int(i) => HashableValue::Int(*i),
+            V::Bool(b) => HashableValue::Bool(*b),
+            V::Str(s) => HashableValue::String(std::str::from_utf8(s).ok()?.parse::<Text>().ok()?),
+            V::Id(d) => HashableValue::Id(BaseId::from_bytes(d.as_slice().try_into().ok()?)),
+            V::Enum(v, n) => HashableValue::Enum(n.parse::<Identifier>().ok()?, *v),
+        })
+    }
+    fn from_hashable(h: &HashableValue) -> V {
+        match h {
+            HashableValue::Int(i) => V::Int(*i),
+            HashableValue::Bool(b) => V::Bool(*b),
+            HashableValue::String(s) => V::Str(s.as_str().as_bytes().to_vec()),
+            HashableValue::Id(d) => V::Id(d.as_bytes().to_vec()),
+            HashableValue::Enum(n, v) => V::Enum(*v, n.to_string()),
+        }
+    }
+    fn from_value(v: &Value) -> Option<V> {
+        Some(match v {
+            Value::Int(i) => V::Int(*i),
+            Value::Bool(b) => V::Bool(*b),
+            Value::String(s) => V::Str(s.as_str().as_bytes().to_vec()),
+            Value::Id(d) => V::Id(d.as_bytes().to_vec()),
+            Value::Enum(n, v) => V::Enum(*v, n.to_string()),
+            _ => return None,
+        })
+    }
+    /// source-text literal, when the language can express the value
+    fn literal(&self) -> Option<String> {
+        match self {
+            V::Int(i) if (0..=1_000_000).contains(i) => Some(i.to_string()),
+            V::Bool(b) => Some(b.to_string()),
+            V::Str(s) if s.iter().all(|c| c.is_ascii_alphanumeric() || *c == b' ') => {
+                Some(format!("\"{}\"", String::from_utf8(s.clone()).unwrap()))
+            }
+            V::Enum(v, n) if n == ENUM_NAME && (0..3).contains(v) => {
+                Some(format!("{ENUM_NAME}::{}", ENUM_VARIANTS[*v as usize]))
+            }
+            _ => None,
+        }
+    }
+}
+
+// ------------------------------------------------------------------ schema, patterns, ops
+
+#[derive(Clone, Debug)]
+struct Schema {
+    keys: Vec<(String, Ty)>,
+    vals: Vec<(String, Ty)>,
+}
+
+/// one position of a literal: a value passed as a command field, a value written into the
+/// policy source, or `?`
+#[derive(Clone, Debug, PartialEq, Eq)]
+enum Pos {
+    Param(V),
+    Lit(V),
+    Bind,
+}
+
+impl Pos {
+    fn val(&self) -> Option<&V> {
+        match self {
+            Pos::Param(v) | Pos::Lit(v) => Some(v),
+            Pos::Bind => None,
+        }
+    }
+    fn tok(&self) -> String {
+        match self {
+            Pos::Param(v) => v.tok(),
+            Pos::Lit(v) => format!("L{}", v.tok()),
+            Pos::Bind => "?".into(),
+        }
+    }
+    fn parse(t: &str) -> Option<Pos> {
+        if t == "?" {
+            Some(Pos::Bind)
+        } else if let Some(r) = t.strip_prefix('L') {
+            Some(Pos::Lit(V::parse(r)?))
+        } else {
+            Some(Pos::Param(V::parse(t)?))
+        }
+    }
+    /// shape: what ends up in the policy source
+    fn shape(&self) -> String {
+        match self {
+            Pos::Param(_) => "P".into(),
+            Pos::Lit(v) => format!("L{}", v.tok()),
+            Pos::Bind => "?".into(),
+        }
+    }
+}
+
+#[derive(Clone, Debug, PartialEq, Eq)]
+enum Kind {
+    Query,
+    Exists,
+    Count(i64),
+    AtLeast(i64),
+    AtMost(i64),
+    Exactly(i64),
+    Map,
+}
+
+#[derive(Clone, Debug)]
+enum Op {
+    Create(Vec<Pos>, Vec<Pos>),
+    Delete(Vec<Pos>),
+    /// keys, from-values (`None` = no `=>{..}` part), to-values
+    Update(Vec<Pos>, Option<Vec<Pos>>, Vec<Pos>),
+    /// bound leading keys, value pattern (`None` = no `=>{..}` part)
+    Q(Kind, Vec<Pos>, Option<Vec<Pos>>),
+}
+
+fn toks(ps: &[Pos]) -> String {
+    ps.iter().map(|p| p.tok()).collect::<Vec<_>>().join(" ")
+}
+fn opt_toks(ps: &Option<Vec<Pos>>) -> String {
+    match ps {
+        None => "-".into(),
+        Some(p) => toks(p),
+    }
+}
+
+impl Op {
+    fn line(&self) -> String {
+        let j = |parts: Vec<String>| parts.into_iter().filter(|s| !s.is_empty()).collect::<Vec<_>>().join(" ");
+        match self {
+            Op::Create(k, v) => j(vec!["create".into(), toks(k), "/".into(), toks(v)]),
+            Op::Delete(k) => j(vec!["delete".into(), toks(k)]),
+            Op::Update(k, f, t) => j(vec!["update".into(), toks(k), "/".into(), opt_toks(f), "/".into(), toks(t)]),
+            Op::Q(kind, k, p) => {
+                let head = match kind {
+                    Kind::Query => "query".to_string(),
+                    Kind::Exists => "exists".to_string(),
+                    Kind::Count(n) => format!("count {n}"),
+                    Kind::AtLeast(n) => format!("atleast {n}"),
+                    Kind::AtMost(n) => format!("atmost {n}"),
+                    Kind::Exactly(n) => format!("exactly {n}"),
+                    Kind::Map => "map".to_string(),
+                };
+                j(vec![head, toks(k), "/".into(), opt_toks(p)])
+            }
+        }
+    }
+    /// what distinguishes one generated command from another
+    fn shape(&self) -> String {
+        let sh = |ps: &[Pos]| ps.iter().map(|p| p.shape()).collect::<Vec<_>>().join(",");
+        let osh = |ps: &Option<Vec<Pos>>| match ps {
+            None => "-".to_string(),
+            Some(p) => sh(p),
+        };
+        match self {
+            Op::Create(k, v) => format!("create[{}]{{{}}}", sh(k), sh(v)),
+            Op::Delete(k) => format!("delete[{}]", sh(k)),
+            Op::Update(k, f, t) => format!("update[{}]{{{}}}{{{}}}", sh(k), osh(f), sh(t)),
+            Op::Q(kind, k, p) => format!("{kind:?}[{}]{{{}}}", sh(k), osh(p)),
+        }
+    }
+    fn params(&self) -> Vec<V> {
+        fn add(ps: &[Pos], out: &mut Vec<V>) {
+            for p in ps {
+                if let Pos::Param(v) = p {
+                    out.push(v.clone());
+                }
+            }
+        }
+        let mut out = vec![];
+        match self {
+            Op::Create(k, v) => {
+                add(k, &mut out);
+                add(v, &mut out);
+            }
+            Op::Delete(k) => add(k, &mut out),
+            Op::Update(k, f, t) => {
+                add(k, &mut out);
+                if let Some(f) = f {
+                    add(f, &mut out);
+                }
+                add(t, &mut out);
+            }
+            Op::Q(_, k, p) => {
+                add(k, &mut out);
+                if let Some(p) = p {
+                    add(p, &mut out);
+                }
+            }
+        }
+        out
+    }
+}
+
+fn parse_positions(ts: &[&str]) -> Option<Vec<Pos>> {
+    ts.iter().map(|t| Pos::parse(t)).collect()
+}
+fn parse_opt_positions(ts: &[&str]) -> Option<Option<Vec<Pos>>> {
+    if ts == ["-"] {
+        Some(None)
+    } else {
+        Some(Some(parse_positions(ts)?))
+    }
+}
+
+fn parse_op(line: &str) -> Option<Op> {
+    let t: Vec<&str> = line.split(' ').filter(|s| !s.is_empty()).collect();
+    let groups: Vec<&[&str]> = t[1..].split(|x| *x == "/").collect();
+    match t[0] {
+        "create" if groups.len() == 2 => Some(Op::Create(parse_positions(groups[0])?, parse_positions(groups[1])?)),
+        "delete" if groups.len() == 1 => Some(Op::Delete(parse_positions(groups[0])?)),
+        "update" if groups.len() == 3 => Some(Op::Update(
+            parse_positions(groups[0])?,
+            parse_opt_positions(groups[1])?,
+            parse_positions(groups[2])?,
+        )),
+        "query" | "exists" | "map" if groups.len() == 2 => {
+            let kind = match t[0] {
+                "query" => Kind::Query,
+                "exists" => Kind::Exists,
+                _ => Kind::Map,
+            };
+            Some(Op::Q(kind, parse_positions(groups[0])?, parse_opt_positions(groups[1])?))
+        }
+        "count" | "atleast" | "atmost" | "exactly" if groups.len() == 2 && !groups[0].is_empty() => {
+            let n: i64 = groups[0][0].parse().ok()?;
+            let kind = match t[0] {
+                "count" => Kind::Count(n),
+                "atleast" => Kind::AtLeast(n),
+                "atmost" => Kind::AtMost(n),
+                _ => Kind::Exactly(n),
+            };
+            Some(Op::Q(kind, parse_positions(&groups[0][1..])?, parse_opt_positions(groups[1])?))
+        }
+        _ => None,
+    }
+}
+
+fn schema_line(s: &Schema) -> String {
+    let f = |v: &[(String, Ty)]| v.iter().map(|(n, t)| format!("{n}:{}", t.code())).collect::<Vec<_>>().join(" ");
+    let mut l = "schema".to_string();
+    if !s.keys.is_empty() {
+        l.push(' ');
+        l.push_str(&f(&s.keys));
+    }
+    l.push_str(" /");
+    if !s.vals.is_empty() {
+        l.push(' ');
+        l.push_str(&f(&s.vals));
+    }
+    l
+}
+
+fn parse_schema(line: &str) -> Option<Schema> {
+    let t: Vec<&str> = line.split(' ').filter(|s| !s.is_empty()).collect();
+    if t.first() != Some(&"schema") {
+        return None;
+    }
+    let groups: Vec<&[&str]> = t[1..].split(|x| *x == "/").collect();
+    if groups.len() != 2 {
+        return None;
+    }
+    let f = |g: &[&str]| -> Option<Vec<(String, Ty)>> {
+        g.iter()
+            .map(|x| {
+                let (n, c) = x.split_once(':')?;
+                Some((n.to_string(), Ty::from_code(c.chars().next()?)?))
+            })
+            .collect()
+    };
+    Some(Schema { keys: f(groups[0])?, vals: f(groups[1])? })
+}
+
+// ------------------------------------------------------------------ policy source generation
+
+const CMD_BOILER: &str = "    seal { return envelope::do_seal(payload) }\n    open { return envelope::do_open(payload, envelope) }\n";
+
+struct Gen<'a> {
+    schema: &'a Schema,
+}
+
+impl Gen<'_> {
+    /// `F[k0: .., k1: ?]=>{v0: ..}`; parameters are taken from `this.pN` (commands) or `pN`
+    /// (actions); returns the text and advances the parameter counter.
+    fn fact_literal(&self, keys: &[Pos], vals: &Option<Vec<Pos>>, prefix: &str, next: &mut usize, pad_binds: bool) -> String {
+        let mut ks = vec![];
+        for (i, (name, _)) in self.schema.keys.iter().enumerate() {
+            match keys.get(i) {
+                Some(p) => ks.push(format!("{name}: {}", self.pos(p, prefix, next))),
+                None if pad_binds => ks.push(format!("{name}: ?")),
+                None => {}
+            }
+        }
+        let mut s = format!("F[{}]", ks.join(", "));
+        if let Some(vals) = vals {
+            s.push_str(&format!("=>{{{}}}", self.vals(vals, prefix, next)));
+        }
+        s
+    }
+    fn vals(&self, vals: &[Pos], prefix: &str, next: &mut usize) -> String {
+        self.schema
+            .vals
+            .iter()
+            .zip(vals)
+            .map(|((name, _), p)| format!("{name}: {}", self.pos(p, prefix, next)))
+            .collect::<Vec<_>>()
+            .join(", ")
+    }
+    fn pos(&self, p: &Pos, prefix: &str, next: &mut usize) -> String {
+        match p {
+            Pos::Bind => "?".into(),
+            Pos::Lit(v) => v.literal().expect("literal expressible"),
+            Pos::Param(_) => {
+                let s = format!("{prefix}p{next}");
+                *next += 1;
+                s
+            }
+        }
+    }
+    fn all_fields_decl(&self) -> String {
+        self.schema.keys.iter().chain(&self.schema.vals).map(|(n, t)| format!("{n} {}", t.src())).collect::<Vec<_>>().join(", ")
+    }
+    fn all_fields_from(&self, src: &str) -> String {
+        self.schema.keys.iter().chain(&self.schema.vals).map(|(n, _)| format!("{n}: {src}.{n}")).collect::<Vec<_>>().join(", ")
+    }
+
+    fn preamble(&self) -> String {
+        let mut s = String::new();
+        s.push_str("use envelope\n\n");
+        s.push_str(&format!("enum {ENUM_NAME} {{ {} }}\n\n", ENUM_VARIANTS.join(", ")));
+        let kd = self.schema.keys.iter().map(|(n, t)| format!("{n} {}", t.src())).collect::<Vec<_>>().join(", ");
+        let vd = self.schema.vals.iter().map(|(n, t)| format!("{n} {}", t.src())).collect::<Vec<_>>().join(", ");
+        s.push_str(&format!("fact F[{kd}]=>{{{vd}}}\n\n"));
+        s.push_str(&format!("effect Hit {{ {} }}\neffect Miss {{ }}\neffect B {{ b bool }}\neffect N {{ n int }}\neffect Done {{ }}\n\n", self.all_fields_decl()));
+        s.push_str(&format!(
+            "command Init {{\n    attributes {{ init: true }}\n    fields {{ nonce int }}\n{CMD_BOILER}    policy {{ finish {{}} }}\n}}\naction init(nonce int) {{ publish Init {{ nonce: nonce }} }}\n\n"
+        ));
+        // `map` actions end with this command so that an action that visits nothing still publishes
+        // something (an action publishing no command at all is an error of `ClientState::action`)
+        s.push_str(&format!(
+            "command End {{\n    attributes {{ priority: 0 }}\n    fields {{ }}\n{CMD_BOILER}    policy {{ finish {{ emit Done {{ }} }} }}\n}}\n\n"
+        ));
+        // the command published by `map` bodies
+        s.push_str(&format!(
+            "command Vis {{\n    attributes {{ priority: 0 }}\n    fields {{ {} }}\n{CMD_BOILER}    policy {{ finish {{ emit Hit {{ {} }} }} }}\n}}\n\n",
+            self.all_fields_decl(),
+            self.all_fields_from("this")
+        ));
+        s
+    }
+
+    /// the command + action for one op shape; `j` numbers them
+    fn unit(&self, j: usize, op: &Op) -> String {
+        let params: Vec<Ty> = op.params().iter().map(|v| v.ty()).collect();
+        let fields = params.iter().enumerate().map(|(i, t)| format!("p{i} {}", t.src())).collect::<Vec<_>>().join(", ");
+        let pass = (0..params.len()).map(|i| format!("p{i}: p{i}")).collect::<Vec<_>>().join(", ");
+        let mut n = 0usize;
+        if let Op::Q(Kind::Map, k, p) = op {
+            let lit = self.fact_literal(k, p, "", &mut n, true);
+            return format!(
+                "action a{j}({fields}) {{\n    map {lit} as f {{\n        publish Vis {{ {} }}\n    }}\n    publish End {{ }}\n}}\n\n",
+                self.all_fields_from("f")
+            );
+        }
+        let body = match op {
+            Op::Create(k, v) => {
+                let lit = self.fact_literal(k, &Some(v.clone()), "this.", &mut n, false);
+                format!("        finish {{\n            create {lit}\n            emit Done {{ }}\n        }}\n")
+            }
+            Op::Delete(k) => {
+                let lit = self.fact_literal(k, &None, "this.", &mut n, false);
+                format!("        finish {{\n            delete {lit}\n            emit Done {{ }}\n        }}\n")
+            }
+            Op::Update(k, f, t) => {
+                let lit = self.fact_literal(k, f, "this.", &mut n, false);
+                let to = self.vals(t, "this.", &mut n);
+                format!("        finish {{\n            update {lit} to {{{to}}}\n            emit Done {{ }}\n        }}\n")
+            }
+            Op::Q(kind, k, p) => {
+                let lit = self.fact_literal(k, p, "this.", &mut n, true);
+                match kind {
+                    Kind::Query => format!(
+                        "        let r = query {lit}\n        if r is Some {{\n            let f = r or test_fail()\n            finish {{ emit Hit {{ {} }} }}\n        }} else {{\n            finish {{ emit Miss {{ }} }}\n        }}\n",
+                        self.all_fields_from("f")
+                    ),
+                    Kind::Exists => format!("        let r = exists {lit}\n        finish {{ emit B {{ b: r }} }}\n"),
+                    Kind::Count(l) => format!("        let r = count_up_to {l} {lit}\n        finish {{ emit N {{ n: r }} }}\n"),
+                    Kind::AtLeast(l) => format!("        let r = at_least {l} {lit}\n        finish {{ emit B {{ b: r }} }}\n"),
+                    Kind::AtMost(l) => format!("        let r = at_most {l} {lit}\n        finish {{ emit B {{ b: r }} }}\n"),
+                    Kind::Exactly(l) => format!("        let r = exactly {l} {lit}\n        finish {{ emit B {{ b: r }} }}\n"),
+                    Kind::Map => unreachable!(),
+                }
+            }
+        };
+        format!(
+            "command C{j} {{\n    attributes {{ priority: 0 }}\n    fields {{ {fields} }}\n{CMD_BOILER}    policy {{\n{body}    }}\n}}\naction a{j}({fields}) {{ publish C{j} {{ {pass} }} }}\n\n"
+        )
+    }
+}
+
+// ------------------------------------------------------------------ oracle (S level)
+
+type Store = BTreeMap<Vec<V>, Vec<(String, V)>>;
+
+fn vals_match(schema: &Schema, pat: &Option<Vec<Pos>>, vals: &[(String, V)]) -> bool {
+    match pat {
+        None => true,
+        Some(ps) => schema.vals.iter().zip(ps).all(|((name, _), p)| match p.val() {
+            None => true,
+            Some(v) => vals.iter().any(|(n, w)| n == name && w == v),
+        }),
+    }
+}
+
+fn matches<'a>(schema: &Schema, st: &'a Store, keys: &[Pos], pat: &Option<Vec<Pos>>) -> Vec<(&'a Vec<V>, &'a Vec<(String, V)>)> {
+    let bound: Vec<&V> = keys.iter().filter_map(|p| p.val()).collect();
+    st.iter()
+        .filter(|(k, v)| k.len() >= bound.len() && k.iter().zip(&bound).all(|(a, b)| a == *b) && vals_match(schema, pat, v))
+        .collect()
+}
+
+fn show_fact(schema: &Schema, k: &[V], v: &[(String, V)]) -> String {
+    let ks: Vec<String> = schema.keys.iter().zip(k).map(|((n, _), x)| format!("{n}={}", x.tok())).collect();
+    let mut vs: Vec<String> = v.iter().map(|(n, x)| format!("{n}={}", x.tok())).collect();
+    vs.sort();
+    format!("{}|{}", ks.join(","), vs.join(","))
+}
+
+/// render a `Hit` effect as a fact
+fn show_hit(schema: &Schema, e: &aranya_runtime::VmEffect) -> String {
+    let get = |n: &str| e.fields.iter().find(|kv| kv.key().as_str() == n).and_then(|kv| V::from_value(kv.value()));
+    let ks: Vec<String> = schema.keys.iter().map(|(n, _)| format!("{n}={}", get(n).map(|v| v.tok()).unwrap_or("?".into()))).collect();
+    let mut vs: Vec<String> = schema.vals.iter().map(|(n, _)| format!("{n}={}", get(n).map(|v| v.tok()).unwrap_or("?".into()))).collect();
+    vs.sort();
+    format!("{}|{}", ks.join(","), vs.join(","))
+}
+
+// ------------------------------------------------------------------ running one case
+
+fn all_vals(ps: &[Pos]) -> Vec<V> {
+    ps.iter().filter_map(|p| p.val().cloned()).collect()
+}
+
+fn run_case(rec: &mut Recorder, lines: &[String]) {
+    let Some(schema) = lines.first().and_then(|l| parse_schema(l)) else {
+        rec.notes.push("replay without schema line".into());
+        return;
+    };
+    rec.line(lines[0].clone(), "ok");
+    let ops: Vec<(String, Option<Op>)> = lines[1..].iter().map(|l| (l.clone(), parse_op(l))).collect();
+    // one command per distinct shape
+    let mut shapes: BTreeMap<String, usize> = BTreeMap::new();
+    let mut units = vec![];
+    let gen = Gen { schema: &schema };
+    for (_, op) in &ops {
+        if let Some(op) = op {
+            let sh = op.shape();
+            if !shapes.contains_key(&sh) {
+                let j = shapes.len();
+                shapes.insert(sh, j);
+                units.push(gen.unit(j, op));
+            }
+        }
+    }
+    let src = format!("{}{}", gen.preamble(), units.join(""));
+    let module = match pk::compile(&src, true) {
+        pk::Compiled::Ok(m) => m,
+        pk::Compiled::ParseError(e) | pk::Compiled::Rejected(e) => {
+            rec.count("compile-rejected");
+            rec.oracle_fail(format!("generated policy was not accepted: {}", e.lines().take(6).collect::<Vec<_>>().join(" | ")));
+            if rec.samples.len() < 5 {
+                rec.samples.push(src);
+            }
+            return;
+        }
+    };
+    let mut w = match pk::World::new(module) {
+        Ok(w) => w,
+        Err(e) => {
+            rec.oracle_fail(format!("world: {e}"));
+            return;
+        }
+    };
+    if rec.cases() <= 1 {
+        rec.sample(src.clone());
+    }
+    let mut st: Store = BTreeMap::new();
+    for (line, op) in &ops {
+        let Some(op) = op else {
+            rec.line(line.clone(), "bad-op");
+            continue;
+        };
+        let j = shapes[&op.shape()];
+        let args: Option<Vec<Value>> = op.params().iter().map(|v| v.to_value()).collect();
+        let Some(args) = args else {
+            rec.line(line.clone(), "bad-op");
+            continue;
+        };
+        let name = format!("a{j}");
+        let (res, sink) = match vh::catch(std::panic::AssertUnwindSafe(|| w.act(&name, &args))) {
+            Ok(x) => x,
+            Err(p) => {
+                rec.panics.push(format!("{line}: {p}"));
+                rec.line(line.clone(), "panic");
+                continue;
+            }
+        };
+        let effects = sink.effects();
+        let real: String = match (&res, op) {
+            (Err(_), _) => "err".into(),
+            (Ok(()), Op::Create(..) | Op::Delete(..) | Op::Update(..)) => "ok".into(),
+            (Ok(()), Op::Q(Kind::Query, ..)) => match effects.first() {
+                Some(e) if e.name.as_str() == "Hit" => show_hit(&schema, e),
+                Some(e) if e.name.as_str() == "Miss" => "none".into(),
+                _ => "no-effect".into(),
+            },
+            (Ok(()), Op::Q(Kind::Map, ..)) => {
+                format!("[{}]", effects.iter().filter(|e| e.name.as_str() == "Hit").map(|e| show_hit(&schema, e)).collect::<Vec<_>>().join(";"))
+            }
+            (Ok(()), Op::Q(..)) => match effects.first() {
+                Some(e) => pk::show_fields(&e.fields).split('=').nth(1).unwrap_or("?").to_string(),
+                None => "no-effect".into(),
+            },
+        };
+        rec.line(line.clone(), real.clone());
+
+        // ---- S-level oracle
+        let want: Option<String> = match op {
+            Op::Create(k, v) => {
+                let key = all_vals(k);
+                let vals: Vec<(String, V)> = schema.vals.iter().map(|(n, _)| n.clone()).zip(all_vals(v)).collect();
+                if st.contains_key(&key) {
+                    // creating an existing fact: outside the property ("creating absent facts");
+                    // the oracle follows either sensible outcome
+                    rec.count(&format!("unspecified:create-existing:{real}"));
+                    if real == "ok" {
+                        st.insert(key, vals);
+                    }
+                    None
+                } else {
+                    st.insert(key, vals);
+                    Some("ok".into())
+                }
+            }
+            Op::Delete(k) => {
+                let key = all_vals(k);
+                if st.remove(&key).is_some() {
+                    Some("ok".into())
+                } else {
+                    rec.count(&format!("unspecified:delete-missing:{real}"));
+                    None
+                }
+            }
+            Op::Update(k, f, t) => {
+                let key = all_vals(k);
+                let newv: Vec<(String, V)> = schema.vals.iter().map(|(n, _)| n.clone()).zip(all_vals(t)).collect();
+                match st.get(&key) {
+                    Some(old) if vals_match(&schema, f, old) => {
+                        st.insert(key, newv);
+                        Some("ok".into())
+                    }
+                    Some(_) => {
+                        rec.count("update-mismatch");
+                        Some("err".into())
+                    }
+                    None => {
+                        rec.count("update-missing");
+                        Some("err".into())
+                    }
+                }
+            }
+            Op::Q(kind, k, p) => {
+                let m = matches(&schema, &st, k, p);
+                let n = m.len() as i64;
+                rec.count(&format!("matches:{}", n.min(4)));
+                Some(match kind {
+                    Kind::Query => m.first().map(|(k, v)| show_fact(&schema, k, v)).unwrap_or("none".into()),
+                    Kind::Exists => format!("b{}", (n > 0) as u8),
+                    Kind::Count(l) => format!("i{}", n.min(*l)),
+                    Kind::AtLeast(l) => format!("b{}", (n >= *l) as u8),
+                    Kind::AtMost(l) => format!("b{}", (n <= *l) as u8),
+                    Kind::Exactly(l) => format!("b{}", (n == *l) as u8),
+                    Kind::Map => format!("[{}]", m.iter().map(|(k, v)| show_fact(&schema, k, v)).collect::<Vec<_>>().join(";")),
+                })
+            }
+        };
+        if let Some(want) = want {
+            if want != real {
+                rec.oracle_fail(format!("`{line}`: real `{real}`, fact-store model `{want}`"));
+            }
+        }
+    }
+    // ---- storage-level check: the committed facts are exactly the oracle's, in typed key order
+    let raw = w.facts("F");
+    let want_keys: Vec<Vec<Vec<u8>>> = st
+        .keys()
+        .map(|k| {
+            schema
+                .keys
+                .iter()
+                .zip(k)
+                .map(|((n, _), v)| codec::ser_key(&FactKey::new(n.parse().unwrap(), v.to_hashable().unwrap())).to_vec())
+                .collect()
+        })
+        .collect();
+    let got_keys: Vec<Vec<Vec<u8>>> = raw.iter().map(|(k, _)| k.clone()).collect();
+    if got_keys != want_keys {
+        rec.oracle_fail(format!(
+            "storage holds {} facts in an order/content different from the model's {} (typed key order)",
+            got_keys.len(),
+            want_keys.len()
+        ));
+    }
+}
+
+// ------------------------------------------------------------------ codec stream
+
+fn codec_request(rec: &mut Recorder, line: &str) {
+    let t: Vec<&str> = line.split(' ').collect();
+    match t[0] {
+        "serkey" if t.len() == 3 => {
+            let (Some(id), Some(v)) = (unhex(t[1]), V::parse(t[2])) else {
+                rec.line(line, "bad-op");
+                return;
+            };
+            let (Some(ident), Some(h)) = (String::from_utf8(id).ok().and_then(|s| s.parse::<Identifier>().ok()), v.to_hashable()) else {
+                rec.line(line, "bad-op");
+                return;
+            };
+            let k = FactKey::new(ident, h);
+            let bytes = codec::ser_key(&k);
+            rec.line(line, hex(&bytes));
+            match codec::deser_key(&bytes) {
+                Ok(k2) if k2 == k => {}
+                other => rec.oracle_fail(format!("{line}: deser_key(ser_key(k)) = {other:?}")),
+            }
+        }
+        "cmpkey" if t.len() == 4 => {
+            let (Some(id), Some(a), Some(b)) = (unhex(t[1]), V::parse(t[2]), V::parse(t[3])) else {
+                rec.line(line, "bad-op");
+                return;
+            };
+            let ident: Identifier = String::from_utf8(id).unwrap().parse().unwrap();
+            let ka = codec::ser_key(&FactKey::new(ident.clone(), a.to_hashable().unwrap()));
+            let kb = codec::ser_key(&FactKey::new(ident, b.to_hashable().unwrap()));
+            let o = |x: std::cmp::Ordering| match x {
+                std::cmp::Ordering::Less => "lt",
+                std::cmp::Ordering::Equal => "eq",
+                std::cmp::Ordering::Greater => "gt",
+            };
+            rec.line(line, o(ka.cmp(&kb)));
+            // S level: typed order
+            if a.ty() == b.ty() && ka.cmp(&kb) != a.cmp(&b) {
+                rec.oracle_fail(format!("{line}: byte order {:?} but typed order {:?}", ka.cmp(&kb), a.cmp(&b)));
+            }
+        }
+        "deserkey" if t.len() == 2 => {
+            let Some(bytes) = unhex(t[1]) else {
+                rec.line(line, "bad-op");
+                return;
+            };
+            match vh::catch(|| codec::deser_key(&bytes)) {
+                Err(p) => {
+                    rec.panics.push(format!("{line}: {p}"));
+                    rec.line(line, "panic");
+                }
+                Ok(Ok(k)) => {
+                    rec.line(line, format!("ok {} {}", hex(k.identifier.as_str().as_bytes()), V::from_hashable(&k.value).tok()));
+                    // S level: accepted input is canonical
+                    if codec::ser_key(&k).as_ref() != bytes.as_slice() {
+                        rec.oracle_fail(format!("{line}: accepted, but re-encodes differently"));
+                    }
+                }
+                Ok(Err(e)) => rec.line(line, format!("err {}", e.replace(' ', "-"))),
+            }
+        }
+        _ => rec.line(line, "bad-op"),
+    }
+}
+
+// ------------------------------------------------------------------ generators
+
+const INTS: [i64; 14] = [i64::MIN, i64::MIN + 1, -256, -2, -1, 0, 1, 2, 255, 256, 65536, 1 << 32, i64::MAX - 1, i64::MAX];
+const STRS: [&str; 9] = ["", "a", "ab", "b", "A", "a b", "\u{e9}", "~", "zz9"];
+
+fn gen_val(rng: &mut Rng, ty: Ty, narrow: u64) -> V {
+    // `narrow`: size of the pool actually used in this case (small pools make collisions)
+    match ty {
+        Ty::Int => {
+            if rng.chance(1, 12) {
+                V::Int(rng.next_u64() as i64)
+            } else {
+                // boundary values across the sign boundary are over-weighted
+                V::Int(INTS[rng.below((narrow * 3).min(INTS.len() as u64)) as usize + (INTS.len() - (narrow as usize * 3).min(INTS.len())) / 2])
+            }
+        }
+        Ty::Bool => V::Bool(rng.chance(1, 2)),
+        Ty::Str => V::Str(STRS[rng.below(narrow.min(STRS.len() as u64)) as usize].as_bytes().to_vec()),
+        Ty::Id => {
+            let b = [0x00u8, 0x01, 0x7f, 0x80, 0xff][rng.below(narrow.min(5)) as usize];
+            let mut id = vec![b; 32];
+            if rng.chance(1, 3) {
+                id[31] = id[31].wrapping_add(1);
+            }
+            if rng.chance(1, 4) {
+                id[0] = 0;
+            }
+            V::Id(id)
+        }
+        Ty::Enum => V::Enum(rng.below(3) as i64, ENUM_NAME.into()),
+    }
+}
+
+fn gen_ty(rng: &mut Rng) -> Ty {
+    match rng.below(10) {
+        0..=3 => Ty::Int,
+        4 => Ty::Bool,
+        5..=6 => Ty::Str,
+        7 => Ty::Id,
+        _ => Ty::Enum,
+    }
+}
+
+fn gen_schema(rng: &mut Rng) -> Schema {
+    let nk = match rng.below(20) {
+        0 => 0,
+        1..=7 => 1,
+        8..=15 => 2,
+        _ => 3,
+    };
+    let nv = rng.below(3) as usize;
+    const KN: [&str; 6] = ["k", "key_0", "K9", "a", "kk", "z_"];
+    const VN: [&str; 5] = ["v", "val_0", "W", "b", "vv"];
+    let mut kn: Vec<&str> = KN.to_vec();
+    rng.shuffle(&mut kn);
+    let mut vn: Vec<&str> = VN.to_vec();
+    rng.shuffle(&mut vn);
+    Schema {
+        keys: (0..nk).map(|i| (kn[i].to_string(), gen_ty(rng))).collect(),
+        vals: (0..nv).map(|i| (vn[i].to_string(), gen_ty(rng))).collect(),
+    }
+}
+
+fn pos_of(rng: &mut Rng, v: V, lit_ok: bool) -> Pos {
+    if lit_ok && v.literal().is_some() && rng.chance(1, 3) {
+        Pos::Lit(v)
+    } else {
+        Pos::Param(v)
+    }
+}
+
+fn gen_case(rng: &mut Rng, thorough: bool) -> Vec<String> {
+    let schema = gen_schema(rng);
+    let narrow = rng.range(2, 5);
+    let mut lines = vec![schema_line(&schema)];
+    let nops = rng.range(8, if thorough { 60 } else { 30 });
+    // keys seen so far (to aim deletes/updates/queries at existing facts)
+    let mut seen: Vec<(Vec<V>, Vec<V>)> = vec![];
+    let key_of = |rng: &mut Rng, seen: &Vec<(Vec<V>, Vec<V>)>, hit: bool| -> Vec<V> {
+        if hit && !seen.is_empty() {
+            seen[rng.below(seen.len() as u64) as usize].0.clone()
+        } else {
+            schema.keys.iter().map(|(_, t)| gen_val(rng, *t, narrow)).collect()
+        }
+    };
+    for i in 0..nops {
+        let r = rng.below(100);
+        let op = if r < 35 || i < 3 {
+            let hit = rng.chance(1, 12);
+            let k = key_of(rng, &seen, hit);
+            let v: Vec<V> = schema.vals.iter().map(|(_, t)| gen_val(rng, *t, narrow)).collect();
+            seen.push((k.clone(), v.clone()));
+            Op::Create(k.into_iter().map(|v| pos_of(rng, v, true)).collect(), v.into_iter().map(|v| pos_of(rng, v, true)).collect())
+        } else if r < 43 {
+            let hit = rng.chance(5, 6);
+            let k = key_of(rng, &seen, hit);
+            Op::Delete(k.into_iter().map(|v| pos_of(rng, v, true)).collect())
+        } else if r < 55 {
+            let hit = rng.chance(5, 6);
+            let k = key_of(rng, &seen, hit);
+            // from-pattern: the (probably) current values, with binds / absent / a wrong value
+            let cur: Option<Vec<V>> = seen.iter().rev().find(|(kk, _)| *kk == k).map(|(_, v)| v.clone());
+            let from = if rng.chance(1, 4) {
+                None
+            } else {
+                Some(
+                    schema
+                        .vals
+                        .iter()
+                        .enumerate()
+                        .map(|(i, (_, t))| {
+                            if rng.chance(1, 3) {
+                                Pos::Bind
+                            } else {
+                                let v = match &cur {
+                                    Some(c) if !rng.chance(1, 8) => c[i].clone(),
+                                    _ => gen_val(rng, *t, narrow),
+                                };
+                                pos_of(rng, v, true)
+                            }
+                        })
+                        .collect(),
+                )
+            };
+            let to: Vec<V> = schema.vals.iter().map(|(_, t)| gen_val(rng, *t, narrow)).collect();
+            seen.push((k.clone(), to.clone()));
+            Op::Update(
+                k.into_iter().map(|v| pos_of(rng, v, true)).collect(),
+                from,
+                to.into_iter().map(|v| pos_of(rng, v, true)).collect(),
+            )
+        } else {
+            let kind = match rng.below(14) {
+                0..=2 => Kind::Query,
+                3 => Kind::Exists,
+                4..=5 => Kind::Count(rng.range(1, 4) as i64),
+                6 => Kind::AtLeast(rng.range(1, 4) as i64),
+                7 => Kind::AtMost(rng.range(1, 4) as i64),
+                8 => Kind::Exactly(rng.range(1, 4) as i64),
+                9 => Kind::Count(if rng.chance(1, 2) { i64::MAX } else { i64::MAX - 1 }),
+                _ => Kind::Map,
+            };
+            let hit = rng.chance(4, 5);
+            let full = key_of(rng, &seen, hit);
+            let b = rng.below(schema.keys.len() as u64 + 1) as usize;
+            let keys: Vec<Pos> = full.into_iter().take(b).map(|v| pos_of(rng, v, true)).collect();
+            let pat = if rng.chance(1, 2) {
+                None
+            } else {
+                let cur: Option<Vec<V>> = if seen.is_empty() { None } else { Some(seen[rng.below(seen.len() as u64) as usize].1.clone()) };
+                Some(
+                    schema
+                        .vals
+                        .iter()
+                        .enumerate()
+                        .map(|(i, (_, t))| {
+                            if rng.chance(1, 2) {
+                                Pos::Bind
+                            } else {
+                                let v = match &cur {
+                                    Some(c) if rng.chance(2, 3) => c[i].clone(),
+                                    _ => gen_val(rng, *t, narrow),
+                                };
+                                pos_of(rng, v, true)
+                            }
+                        })
+                        .collect(),
+                )
+            };
+            Op::Q(kind, keys, pat)
+        };
+        lines.push(op.line());
+    }
+    // final full listing
+    lines.push(Op::Q(Kind::Map, vec![], None).line());
+    lines
+}
+
+fn gen_codec_case(rng: &mut Rng) -> Vec<String> {
+    let mut lines = vec![];
+    const IDS: [&str; 5] = ["k", "key_0", "K9", "a_long_identifier_name_0123456789", "z"];
+    for _ in 0..rng.range(4, 12) {
+        let id = hex(IDS[rng.below(5) as usize].as_bytes());
+        let ty = [Ty::Int, Ty::Int, Ty::Bool, Ty::Str, Ty::Id, Ty::Enum][rng.below(6) as usize];
+        let mk = |rng: &mut Rng| -> V {
+            match ty {
+                Ty::Enum => V::Enum(
+                    if rng.chance(1, 2) { INTS[rng.below(14) as usize] } else { rng.below(3) as i64 },
+                    ["Col", "C", "Colz", "A9_"][rng.below(4) as usize].into(),
+                ),
+                Ty::Id if rng.chance(1, 2) => V::Id(rng.bytes(32)),
+                Ty::Int if rng.chance(1, 2) => V::Int(rng.next_u64() as i64),
+                t => gen_val(rng, t, 14),
+            }
+        };
+        let a = mk(rng);
+        let b = if rng.chance(1, 8) { a.clone() } else { mk(rng) };
+        match rng.below(4) {
+            0 => lines.push(format!("serkey {id} {}", a.tok())),
+            1 | 2 => lines.push(format!("cmpkey {id} {} {}", a.tok(), b.tok())),
+            _ => {
+                // a valid encoding, then mutated
+                let k = FactKey::new(String::from_utf8(unhex(&id).unwrap()).unwrap().parse().unwrap(), a.to_hashable().unwrap());
+                let mut bytes = codec::ser_key(&k).to_vec();
+                match rng.below(7) {
+                    0 => {}
+                    1 => bytes.truncate(rng.below(bytes.len() as u64 + 1) as usize),
+                    2 => {
+                        let n = rng.range(1, 3) as usize;
+                        bytes.extend(rng.bytes(n));
+                    }
+                    3 => {
+                        let i = rng.below(bytes.len() as u64) as usize;
+                        bytes[i] ^= 1 << rng.below(8);
+                    }
+                    4 => {
+                        // tag byte
+                        let i = 8 + unhex(&id).unwrap().len();
+                        bytes[i] = rng.below(8) as u8;
+                    }
+                    5 => {
+                        // length field lie
+                        bytes[7] = bytes[7].wrapping_add(rng.range(1, 3) as u8);
+                    }
+                    _ => {
+                        let n = rng.below(24) as usize;
+                        bytes = rng.bytes(n);
+                    }
+                }
+                lines.push(format!("deserkey {}", hex(&bytes)));
+            }
+        }
+    }
+    lines
+}
 
 fn main() {
-    let src = std::fs::read_to_string(std::env::args().nth(1).unwrap()).unwrap();
-    let m = match pk::compile(&src, true) {
-        pk::Compiled::Ok(m) => m,
-        pk::Compiled::ParseError(e) => { println!("PARSE {e}"); return; }
-        pk::Compiled::Rejected(e) => { println!("REJECT {e}"); return; }
-    };
-    let mut w = pk::World::new(m).unwrap();
-    for (k, v) in [(i64::MIN, 1), (-1, 2), (0, 3), (1, 4), (i64::MAX, 5)] {
-        let (r, s) = w.act("put", &[Value::Int(k), Value::Int(v)]);
-        println!("put {k} -> {r:?} {}", s.0.len());
+    let args = Args::parse();
+    vh::quiet_panics();
+    let mut rec = Recorder::new(&args.out);
+    if let Some(p) = &args.replay {
+        let lines = vh::read_replay_input(p);
+        rec.begin_case();
+        if lines.first().map(|l| l.starts_with("schema")).unwrap_or(false) {
+            run_case(&mut rec, &lines);
+        } else {
+            for l in &lines {
+                codec_request(&mut rec, l);
+            }
+        }
+        rec.finish(args.seed, &args.tier);
+        return;
     }
-    let (r, s) = w.act("q1", &[]);
-    println!("q1 -> {r:?}");
-    for e in s.effects() { println!("  {} {} recalled={}", e.name, pk::show_fields(&e.fields), e.recalled); }
-    let (r, s) = w.act("m1", &[]);
-    println!("m1 -> {r:?}");
-    for e in s.effects() { println!("  {} {} recalled={}", e.name, pk::show_fields(&e.fields), e.recalled); }
-    println!("{:?}", w.facts("F").len());
+    let mut rng = Rng::new(args.seed);
+    let thorough = args.thorough() || args.search;
+    let cases = args.budget(60, 700);
+    let mut shapes_seen: BTreeSet<u64> = BTreeSet::new();
+    for _ in 0..cases {
+        let lines = gen_case(&mut rng, thorough);
+        rec.begin_case();
+        rec.count("case:policy");
+        for l in &lines[1..] {
+            rec.count(&format!("op:{}", l.split(' ').next().unwrap()));
+        }
+        let s = parse_schema(&lines[0]).unwrap();
+        rec.count(&format!("nkeys:{}", s.keys.len()));
+        for (_, t) in &s.keys {
+            rec.count(&format!("keytype:{}", t.code()));
+        }
+        if lines.len() >= 6 {
+            rec.nontrivial(fnv(&lines.join(";")));
+        }
+        shapes_seen.insert(fnv(&lines[0]));
+        run_case(&mut rec, &lines);
+    }
+    let ccases = args.budget(300, 6000);
+    for _ in 0..ccases {
+        let lines = gen_codec_case(&mut rng);
+        rec.begin_case();
+        rec.count("case:codec");
+        rec.nontrivial(fnv(&lines.join(";")));
+        for l in &lines {
+            rec.count(&format!("op:{}", l.split(' ').next().unwrap()));
+            codec_request(&mut rec, l);
+        }
+    }
+    rec.notes.push(format!("{} distinct schemas", shapes_seen.len()));
+    rec.finish(args.seed, &args.tier);
 }
